@@ -460,7 +460,51 @@ class Engine:
                 pass
         finally:
             del st_.write_file
+        self._note_orphans("failed-commit")
         self._sync(expect_new=None, expect_removed=set(), op="failed_commit")
+
+    def _note_orphans(self, origin):
+        from .reader import META_RE
+
+        if not hasattr(self, "orphan_origin"):
+            self.orphan_origin = {}
+        for p in self.fs.list("metadata"):
+            b = os.path.basename(p)
+            if os.path.dirname(p) == "metadata" and META_RE.match(b) and b not in self.versions and b != self._pointer():
+                self.orphan_origin.setdefault(b, origin)
+
+    def op_crash_before_flip(self, s):
+        """Process death between writing the new metadata file and the pointer flip: the surviving state
+        is the directory as it was at that instant (no handler, finally or rollback of the dying run)."""
+        import shutil
+
+        st_ = self.t.storage
+        orig = st_.write_file
+        crash_dir = self.root + ".crash"
+
+        def dying(path, content):
+            if path == HINT:
+                shutil.copytree(self.root, crash_dir, symlinks=True)
+                raise OSError("injected: process died here")
+            return orig(path, content)
+
+        st_.write_file = dying
+        try:
+            try:
+                self.t.append_records(self.rows(1))
+            except OSError:
+                pass
+        finally:
+            del st_.write_file
+        if os.path.isdir(crash_dir):
+            shutil.rmtree(self.root)
+            os.rename(crash_dir, self.root)
+            import datashard
+
+            self.t = datashard.load_table(self.location)
+            self.crash_orphans = getattr(self, "crash_orphans", 0) + 1
+        self._note_orphans("crash")
+        self._sync(expect_new=None, expect_removed=set(), op="crash_before_flip")
 
     # ---- GC-related
     def op_age(self, s):
